@@ -201,13 +201,18 @@ class MeiParser(object):
         else:  # the informatio is encoded in a parent scoredef
             found_ancestor_with_metrical_info = False
             for anc in staffdef_el.iterancestors(tag=self._ns_name("scoreDef")):
-                if anc.get("meter.count") is not None:
+                anc_metersig_el = anc.find(self._ns_name("meterSig"))
+                if anc_metersig_el is not None:  # child element of the scoreDef
+                    numerator = int(anc_metersig_el.attrib["count"])
+                    denominator = int(anc_metersig_el.attrib["unit"])
                     found_ancestor_with_metrical_info = True
                     break
-            if found_ancestor_with_metrical_info:
-                numerator = int(anc.attrib["meter.count"])
-                denominator = int(anc.attrib["meter.unit"])
-            else:
+                if anc.get("meter.count") is not None:
+                    numerator = int(anc.attrib["meter.count"])
+                    denominator = int(anc.attrib["meter.unit"])
+                    found_ancestor_with_metrical_info = True
+                    break
+            if not found_ancestor_with_metrical_info:
                 raise Exception(
                     f"The time signature is not encoded in {staffdef_el.get(self._ns_name('id'))} or in any ancestor scoreDef"
                 )
@@ -243,15 +248,18 @@ class MeiParser(object):
         else:  # the information is encoded in a parent scoredef
             found_ancestor_with_key_info = False
             for anc in staffdef_el.iterancestors(tag=self._ns_name("scoreDef")):
-                if anc.get("key.sig") is not None:
+                anc_keysig_el = anc.find(self._ns_name("keySig"))
+                if anc_keysig_el is not None:  # child element of the scoreDef
+                    fifths = self._mei_sig_to_fifths(anc_keysig_el.attrib["sig"])
+                    mode = anc_keysig_el.get("mode")
                     found_ancestor_with_key_info = True
                     break
-            if found_ancestor_with_key_info:
-                sig = anc.attrib["key.sig"]
-                # now extract partitura keysig parameters
-                fifths = self._mei_sig_to_fifths(sig)
-                mode = anc.get("key.mode")
-            else:
+                if anc.get("key.sig") is not None:
+                    fifths = self._mei_sig_to_fifths(anc.attrib["key.sig"])
+                    mode = anc.get("key.mode")
+                    found_ancestor_with_key_info = True
+                    break
+            if not found_ancestor_with_key_info:
                 warnings.warn(
                     f"The key signature is not encoded in {staffdef_el.get(self._ns_name('id'))} or in any ancestor scoreDef."
                 )
